@@ -130,7 +130,8 @@ class EnvScenario(StateScenario):
                     decorate(f, False)
                 elif f["kind"] not in ("configtype", "virtual", "method"):
                     counter[0] += 1
-                    e = rng.choice([None, None, None, True, "NAMED_%s_%d" % (f["key"].upper(), counter[0]), False])
+                    e = rng.choice([None, None, None, True, "NAMED_%s_%d" % (f["key"].upper(), counter[0]), False,
+                                    "named_%s_%d" % (f["key"].lower(), counter[0])])       # an explicit name is used exactly as given
                     if e is not None:
                         f.setdefault("o", {})["env"] = e
 
